@@ -122,10 +122,13 @@ def run(tier, rep, replay=None):
         sg = [x for x in lines if x["ev"] == "sign" and x["param"] == param and not x["panics"] and not x["class"].startswith("hedged") and x.get("seed") in skof]
         rnd.shuffle(sg)
         sbase = {"flavor": flavor, "k": k, "l": l, "eta": eta, "tau": tau, "beta": beta, "g1bits": g1bits, "gamma2": gamma2, "omega": omega, "ctl": ctl}
-        for x in sg[:per]:
+        bsg = sorted([x for x in sg if x["class"].startswith("boundary")], key=lambda x: x["class"])
+        if bsg and not thorough:      # one message whose signing loop meets a rejection test exactly at its bound (all four kinds in thorough)
+            bsg = [bsg[C.SEED % len(bsg)]]
+        for x in [y for y in sg if not y["class"].startswith("boundary")][:per] + bsg:
             msg, ctx = hx(x["msg"]), hx(x["ctx"])
             mprime = ([0, len(ctx)] + ctx + msg) if flavor == "mldsa" else msg
-            tjobs.append(("MLDSASignJob", dict(sbase, sk=hx(skof[x["seed"]]), mprime=mprime, rnd=[0] * 32, sig=hx(x["sig"])), param, "sign:deterministic"))
+            tjobs.append(("MLDSASignJob", dict(sbase, sk=hx(skof[x["seed"]]), mprime=mprime, rnd=[0] * 32, sig=hx(x["sig"])), param, "sign:" + ("boundary" if x["class"].startswith("boundary") else "deterministic")))
         hg = [(j, got) for j, got in hedged_got if j["Param"] == param and j["Seed"] in skof]
         rnd.shuffle(hg)
         for j, got in hg[:per]:
@@ -190,7 +193,7 @@ def run(tier, rep, replay=None):
 
 
 MANIFEST = {
- "text": "MLDSAKeyGenJob.tla, MLDSASignJob.tla and MLDSAVerifyJob.tla are FIPS 204 KeyGen_internal, Sign_internal (rejection loop included: ExpandMask, HighBits, SampleInBall, the norm tests, MakeHint, sigEncode; attempts repeat the program of hash jobs with kappa advanced) and Verify_internal - and their Dilithium 3.1 variants - as executable behaviours for every parameter set (Keccak job machine, ExpandA / ExpandS rejection sampling, NTT by layers with 32-bit-safe modular products, Power2Round, UseHint, encodings): TLC recomputes pk / sk of sampled seeds, deterministic and hedged signature bytes of sampled messages, and decides verification of sampled honest, norm-violating, hint-malformed and altered signatures of the run itself, after rejecting a falsified public key. HintBits.tla is FIPS 204 HintBitPack / HintBitUnpack; MC_HintBits checks for EVERY hint string and vector of a toy size that unpack(pack(h)) = h and that an accepted string is the canonical packing of its vector (TLC finds the seeded deviation that lets indices repeat). DilithiumHelpers.tla states Power2Round, Decompose, MakeHint, UseHint (both gamma2) and the modular reductions; TLC evaluates them on the implementation's outputs - every 211th value of [0, q) x {0, 1} plus corner sets in quick, the complete domain in thorough - under the default and purego builds. The driver compares public key, private key and deterministic signature bytes of the three ML-DSA and three Dilithium parameter sets with a transcription of the standards (structured and random seeds, messages of 0 / 1 / 33 / 200 bytes, contexts of 0 / 1 / 255 bytes) and, through Sign_internal, hedged signatures with explicit rnd. Verification is judged by TLC from recorded facts: accepted iff lengths and context length are right, HintBitUnpack (run by TLC on the recorded hint bytes) succeeds, max |z| < gamma1 - beta and the recomputed commitment hash equals c~; exercised on honest signatures, altered c~ / z / message / context / key, 256-byte contexts, wrong lengths, z coefficients set to +-(gamma1-beta), gamma1-beta-1, +-gamma1, CONSISTENT signatures whose z violates the bound (made by the transcription with the check switched off, so only the norm test can reject them), and hint sections with swapped, duplicated, removed indices, non-zero padding, decreasing / over-large counts.",
+ "text": "MLDSAKeyGenJob.tla, MLDSASignJob.tla and MLDSAVerifyJob.tla are FIPS 204 KeyGen_internal, Sign_internal (rejection loop included: ExpandMask, HighBits, SampleInBall, the norm tests, MakeHint, sigEncode; attempts repeat the program of hash jobs with kappa advanced) and Verify_internal - and their Dilithium 3.1 variants - as executable behaviours for every parameter set (Keccak job machine, ExpandA / ExpandS rejection sampling, NTT by layers with 32-bit-safe modular products, Power2Round, UseHint, encodings): TLC recomputes pk / sk of sampled seeds, deterministic and hedged signature bytes of sampled messages, and decides verification of sampled honest, norm-violating, hint-malformed and altered signatures of the run itself, after rejecting a falsified public key. HintBits.tla is FIPS 204 HintBitPack / HintBitUnpack; MC_HintBits checks for EVERY hint string and vector of a toy size that unpack(pack(h)) = h and that an accepted string is the canonical packing of its vector (TLC finds the seeded deviation that lets indices repeat). DilithiumHelpers.tla states Power2Round, Decompose, MakeHint, UseHint (both gamma2) and the modular reductions; TLC evaluates them on the implementation's outputs - every 211th value of [0, q) x {0, 1} plus corner sets in quick, the complete domain in thorough - under the default and purego builds. The driver compares public key, private key and deterministic signature bytes of the three ML-DSA and three Dilithium parameter sets with a transcription of the standards (structured and random seeds, seeds found by search whose matrix expansion draws the 23-bit candidate q resp. q - 1, messages of 0 / 1 / 33 / 200 bytes, messages found by search one of whose signing attempts has max|z| = gamma1 - beta, max|r0| = gamma2 - beta, exactly omega resp. omega + 1 hints while the other tests pass, contexts of 0 / 1 / 255 bytes) and, through Sign_internal, hedged signatures with explicit rnd. Verification is judged by TLC from recorded facts: accepted iff lengths and context length are right, HintBitUnpack (run by TLC on the recorded hint bytes) succeeds, max |z| < gamma1 - beta and the recomputed commitment hash equals c~; exercised on honest signatures, altered c~ / z / message / context / key, 256-byte contexts, wrong lengths, z coefficients set to +-(gamma1-beta), gamma1-beta-1, +-gamma1, CONSISTENT signatures whose z violates the bound (made by the transcription with the check switched off, so only the norm test can reject them), and hint sections with swapped, duplicated, removed indices, non-zero padding, decreasing / over-large counts.",
  "note": "TLC recomputation per parameter set: 1 key generation, 1 deterministic and 1 hedged signature, 4 verifications in quick; 3 / 3 / 3 / 7 in thorough; seeds and messages are structured plus seeded random (2 random seeds per parameter set quick, 12 thorough).",
  "technique": "executable FIPS 204 KeyGen / Sign / Verify in TLA+ recomputing sampled outputs and verdicts + TLC exhaustive check of hint (un)packing on toy sizes (with seeded deviation) + TLC evaluation of FIPS 204 rounding/reduction contracts on dumped domains + TLC judgement of recorded verifications (HintBitUnpack executed in TLA+) + differential against a transcription of FIPS 204 / Dilithium 3.1",
 }
